@@ -145,9 +145,11 @@ def check_case(W, datamap, s):
                 ed = record(W, datamap, cfg, u, st, None, "str")
                 if json.loads(json.dumps(gd, default=str)) != json.loads(json.dumps(ed, default=str)):
                     bad("get_data-is-not-the-record-of-that-sid", [cfg, st, gd], ed)
-                ga = GetFromPaths(cfg).get_attr(st, "a")
-                if ga != ed.get("a"):
-                    bad("get_attr-is-not-one-value-of-the-record", [cfg, st, ga], ed.get("a"))
+                for key in list(ed) + ["zz"]:       # every key of the record (the 'sid' entry included), and an absent one
+                    ga = GetFromPaths(cfg).get_attr(st, key)
+                    if json.loads(json.dumps(ga, default=str)) != json.loads(json.dumps(ed.get(key), default=str)):
+                        bad("get_attr-is-not-one-value-of-the-record" + ("/sid-entry" if key == "sid" else ""), [cfg, st, key, ga], ed.get(key))
+                        break
         except Exception as e:  # noqa
             bad(f"get_one-or-get_data-raises/{type(e).__name__}", repr(e)[:100], "records")
     # GetFromAll: every type that has a configured Getter answers like its Getter; types routed to None yield nothing
